@@ -76,7 +76,11 @@ func c02EvArg(e c02Ev) string {
 
 // c02Peer answers exactly one request on conn with the scripted events, then drains the
 // connection until the client closes it.
-func c02Peer(conn net.Conn, evs []c02Ev, done chan<- error) {
+// c02Peer answers the requests of one connection in order: first the prelude exchanges (earlier
+// responses on the same connection: ordinary ones, ones the client must refuse, reset ones),
+// then the scripted response under test; afterwards it drains the connection until the client
+// closes it.
+func c02Peer(conn net.Conn, exchanges [][]c02Ev, done chan<- error) {
 	defer conn.Close()
 	preface := make([]byte, len(xhttp2.ClientPreface))
 	if _, err := io.ReadFull(conn, preface); err != nil {
@@ -85,24 +89,40 @@ func c02Peer(conn net.Conn, evs []c02Ev, done chan<- error) {
 	}
 	fr := xhttp2.NewFramer(conn, conn)
 	fr.WriteSettings()
-	var streamID uint32
-	for streamID == 0 {
-		f, err := fr.ReadFrame()
-		if err != nil {
-			done <- err
-			return
-		}
-		switch f := f.(type) {
-		case *xhttp2.SettingsFrame:
-			if !f.IsAck() {
-				fr.WriteSettingsAck()
-			}
-		case *xhttp2.HeadersFrame:
-			streamID = f.StreamID
-		}
-	}
 	var hbuf bytes.Buffer
 	enc := hpack.NewEncoder(&hbuf)
+	var lastID uint32
+	for _, evs := range exchanges {
+		var streamID uint32
+		for streamID == 0 {
+			f, err := fr.ReadFrame()
+			if err != nil {
+				done <- err
+				return
+			}
+			switch f := f.(type) {
+			case *xhttp2.SettingsFrame:
+				if !f.IsAck() {
+					fr.WriteSettingsAck()
+				}
+			case *xhttp2.HeadersFrame:
+				if f.StreamID > lastID {
+					streamID = f.StreamID
+				}
+			}
+		}
+		lastID = streamID
+		c02PeerWrite(fr, enc, &hbuf, streamID, evs)
+	}
+	done <- nil
+	for {
+		if _, err := fr.ReadFrame(); err != nil {
+			return
+		}
+	}
+}
+
+func c02PeerWrite(fr *xhttp2.Framer, enc *hpack.Encoder, hbuf *bytes.Buffer, streamID uint32, evs []c02Ev) {
 	for _, e := range evs {
 		switch e.kind {
 		case 'H':
@@ -135,12 +155,56 @@ func c02Peer(conn net.Conn, evs []c02Ev, done chan<- error) {
 			fr.WriteRSTStream(streamID, xhttp2.ErrCodeInternal)
 		}
 	}
-	done <- nil
-	for {
-		if _, err := fr.ReadFrame(); err != nil {
-			return
+}
+
+// c02GenPrelude: earlier exchanges on the same connection. What they leave behind in the
+// connection (hpack decoder switches, flow-control credit, stream table) must not leak into the
+// response under test. limit = the header list size the client advertises (0 = default).
+func c02GenPrelude(s *verifh.Session) (prelude [][]c02Ev, kinds []string, limit uint32) {
+	r := s.Rand()
+	if r.Intn(3) != 0 {
+		return nil, nil, 0
+	}
+	n := 1 + r.Intn(3)
+	for i := 0; i < n; i++ {
+		switch r.Intn(6) {
+		case 0: // ordinary
+			prelude = append(prelude, []c02Ev{
+				{kind: 'H', fields: []c02KV{{":status", "200"}, {"x-pre", strconv.Itoa(i)}, {"content-length", "3"}}},
+				{kind: 'D', data: "pre", es: true}})
+			kinds = append(kinds, "ok")
+		case 1, 2: // header list above the advertised limit by less than 2x: refused, connection stays
+			limit = 4096
+			var fs []c02KV
+			fs = append(fs, c02KV{":status", "200"})
+			total := 0
+			want := 4096 + 600 + r.Intn(2600)
+			for j := 0; total < want; j++ {
+				v := verifh.RandBytes(r, 300+r.Intn(300), "abcdef0123456789")
+				fs = append(fs, c02KV{"x-big-" + strconv.Itoa(j), v})
+				total += len(v) + 40
+			}
+			// one HEADERS frame: a CONTINUATION after the overflow is (rightly) a connection error
+			prelude = append(prelude, []c02Ev{{kind: 'H', fields: fs, es: r.Intn(2) == 0}})
+			if !prelude[len(prelude)-1][0].es {
+				prelude[len(prelude)-1] = append(prelude[len(prelude)-1], c02Ev{kind: 'D', data: "big", es: true})
+			}
+			kinds = append(kinds, "oversized-header-list")
+		case 3: // invalid field name (upper case on the wire): stream error
+			prelude = append(prelude, []c02Ev{{kind: 'H', es: true, fields: []c02KV{{":status", "200"}, {"x-ok", "1"}, {"X-Upper", "v"}, {"x-after", "2"}}}})
+			kinds = append(kinds, "invalid-field-name")
+		case 4: // invalid field value
+			prelude = append(prelude, []c02Ev{{kind: 'H', es: true, fields: []c02KV{{":status", "200"}, {"x-bad", "a\x00b"}, {"x-after", "2"}}}})
+			kinds = append(kinds, "invalid-field-value")
+		default: // reset in the middle of the body
+			prelude = append(prelude, []c02Ev{
+				{kind: 'H', fields: []c02KV{{":status", "200"}, {"x-pre", "rst"}}},
+				{kind: 'D', data: verifh.RandBytes(r, 1+r.Intn(3000), "")},
+				{kind: 'R'}})
+			kinds = append(kinds, "rst")
 		}
 	}
+	return
 }
 
 func c02H2ErrClass(err error) string {
@@ -198,7 +262,7 @@ func c02Keep(k string) bool { return strings.HasPrefix(k, "X-") || k == "Content
 
 func TestVerif_C02_h2recv(t *testing.T) {
 	s := verifh.New(t, "C02", "h2recv",
-		"frame-script peer (x/net/http2 Framer + hpack) on loopback TCP against a real ClientConn: 0..2 (rarely 6) interim HEADERS, final HEADERS (status, fields, repeated names, Content-Length right / too small / too large / duplicated, Trailer announcement, optional CONTINUATION split, END_STREAM on HEADERS), DATA frames in generated sizes, with/without padding, empty, END_STREAM on DATA or on a trailer HEADERS; violations: DATA after END_STREAM, HEADERS after END_STREAM, trailers without END_STREAM, pseudo field in trailers, third HEADERS, DATA on HEAD, 1xx with END_STREAM, missing/non-numeric :status, RST_STREAM mid-body, GET/HEAD; body 0..65537; caller read sizes {1,7,512,4096,65536,random}; compared: status, X-/Content-Type fields, concatenated bytes, final error class, trailers; non-trivial = >=2 DATA frames and non-empty body")
+		"frame-script peer (x/net/http2 Framer + hpack) on loopback TCP against a real ClientConn: 0..2 (rarely 6) interim HEADERS, final HEADERS (status, fields, repeated names, Content-Length right / too small / too large / duplicated, Trailer announcement, optional CONTINUATION split, END_STREAM on HEADERS), DATA frames in generated sizes, with/without padding, empty, END_STREAM on DATA or on a trailer HEADERS; violations: DATA after END_STREAM, HEADERS after END_STREAM, trailers without END_STREAM, pseudo field in trailers, third HEADERS, DATA on HEAD, 1xx with END_STREAM, missing/non-numeric :status, RST_STREAM mid-body, GET/HEAD; in a third of the cases 1..3 EARLIER exchanges on the same connection (ordinary, header list above the advertised SETTINGS_MAX_HEADER_LIST_SIZE by < 2x, invalid field name / value, reset mid-body) whose outcome must not leak into the response under test; body 0..65537; caller read sizes {1,7,512,4096,65536,random}; compared: status, X-/Content-Type fields, concatenated bytes, final error class, trailers; non-trivial = >=2 DATA frames and non-empty body")
 	r := s.Rand()
 	ln, err := net.Listen("tcp", "127.0.0.1:0")
 	if err != nil {
@@ -209,6 +273,7 @@ func TestVerif_C02_h2recv(t *testing.T) {
 	lens := []int{0, 1, 2, 5, 100, 4095, 4096, 4097, 16383, 16384, 16385}
 	stalls := 0
 	for c := 0; c < n; c++ {
+		prelude, preKinds, hdrLimit := c02GenPrelude(s)
 		isHead := r.Intn(10) == 0
 		bl := verifh.Pick(r, lens)
 		if r.Intn(3) == 0 {
@@ -246,7 +311,7 @@ func TestVerif_C02_h2recv(t *testing.T) {
 		for i := r.Intn(6); i > 0; i-- {
 			fs = append(fs, c02KV{verifh.Pick(r, names), strings.Trim(verifh.RandBytes(r, r.Intn(16), "abcXYZ019 -_=;,/"), " ")})
 		}
-		if r.Intn(15) == 0 {
+		if r.Intn(15) == 0 && hdrLimit == 0 {
 			fs = append(fs, c02KV{"x-long", verifh.RandBytes(r, 3000+r.Intn(30000), "abcdef0123456789")})
 		}
 		declared := r.Intn(2) == 0
@@ -431,7 +496,7 @@ func TestVerif_C02_h2recv(t *testing.T) {
 						done <- err
 						return
 					}
-					c02Peer(conn, evs, done)
+					c02Peer(conn, append(append([][]c02Ev(nil), prelude...), evs), done)
 				}()
 				conn, err := net.Dial("tcp", ln.Addr().String())
 				if err != nil {
@@ -440,12 +505,21 @@ func TestVerif_C02_h2recv(t *testing.T) {
 				}
 				tr := &Transport{Options: &transport.Options{}}
 				tr.AllowHTTP = true
+				tr.MaxHeaderListSize = hdrLimit
 				cc, err := tr.NewClientConn(conn)
 				if err != nil {
 					impl = "infra:" + err.Error()
 					return
 				}
 				defer cc.Close()
+				// the earlier exchanges on this connection: whatever they end in, drain them
+				for range prelude {
+					preq, _ := http.NewRequest("GET", "http://c02.invalid/pre", nil)
+					if pres, perr := cc.RoundTrip(preq); perr == nil {
+						io.Copy(io.Discard, pres.Body)
+						pres.Body.Close()
+					}
+				}
 				method := "GET"
 				if isHead {
 					method = "HEAD"
@@ -541,7 +615,7 @@ func TestVerif_C02_h2recv(t *testing.T) {
 			evArg = strings.Join(evArgs, "/")
 		}
 		line := "c02h2recv " + c02B(isHead) + " " + evArg + " " + verifh.IntList(reads)
-		human := fmt.Sprintf("h2 head=%v status=%s interim=%d fields=%d declared=%v cl=%d body=%d data-frames=%d trailers=%d headEnds=%v mut=%s reads=%d", isHead, status, nint, len(fs), declared, clv, len(body), ndata, len(trailers), headEnds, mut, len(reads))
+		human := fmt.Sprintf("h2 head=%v status=%s interim=%d fields=%d declared=%v cl=%d body=%d data-frames=%d trailers=%d headEnds=%v mut=%s reads=%d earlier-on-conn=%v", isHead, status, nint, len(fs), declared, clv, len(body), ndata, len(trailers), headEnds, mut, len(reads), preKinds)
 		if panicked {
 			s.Crash(line, human, ptxt, "")
 			continue
@@ -560,6 +634,9 @@ func TestVerif_C02_h2recv(t *testing.T) {
 			continue
 		}
 		s.Count("mut:" + mut)
+		for _, k := range preKinds {
+			s.Count("earlier:" + k)
+		}
 		if strings.HasPrefix(impl, "error:") {
 			s.Count("head-" + impl)
 		} else if i := strings.Index(impl, " err="); i >= 0 {
